@@ -3,6 +3,7 @@
         /// carry" is an obligation instead of a type error
         open spec fn tid() -> int { 0 }
         uninterp spec fn zd_ok(b: Seq<u8>, v: Self) -> bool;
+        uninterp spec fn zd_defined(b: Seq<u8>) -> bool;
         #[verifier::external_body]
         fn zvt_deserialize(bytes: &[u8]) -> (r: zvt_builder::ZVTResult<(Self, &[u8])>) { unimplemented!() }
     }
@@ -11,6 +12,7 @@
         /// carry" is an obligation instead of a type error
         open spec fn tid() -> int { 1 }
         uninterp spec fn zd_ok(b: Seq<u8>, v: Self) -> bool;
+        uninterp spec fn zd_defined(b: Seq<u8>) -> bool;
         #[verifier::external_body]
         fn zvt_deserialize(bytes: &[u8]) -> (r: zvt_builder::ZVTResult<(Self, &[u8])>) { unimplemented!() }
     }
@@ -19,6 +21,7 @@
         /// carry" is an obligation instead of a type error
         open spec fn tid() -> int { 2 }
         uninterp spec fn zd_ok(b: Seq<u8>, v: Self) -> bool;
+        uninterp spec fn zd_defined(b: Seq<u8>) -> bool;
         #[verifier::external_body]
         fn zvt_deserialize(bytes: &[u8]) -> (r: zvt_builder::ZVTResult<(Self, &[u8])>) { unimplemented!() }
     }
@@ -27,6 +30,7 @@
         /// carry" is an obligation instead of a type error
         open spec fn tid() -> int { 3 }
         uninterp spec fn zd_ok(b: Seq<u8>, v: Self) -> bool;
+        uninterp spec fn zd_defined(b: Seq<u8>) -> bool;
         #[verifier::external_body]
         fn zvt_deserialize(bytes: &[u8]) -> (r: zvt_builder::ZVTResult<(Self, &[u8])>) { unimplemented!() }
     }
@@ -35,6 +39,7 @@
         /// carry" is an obligation instead of a type error
         open spec fn tid() -> int { 4 }
         uninterp spec fn zd_ok(b: Seq<u8>, v: Self) -> bool;
+        uninterp spec fn zd_defined(b: Seq<u8>) -> bool;
         #[verifier::external_body]
         fn zvt_deserialize(bytes: &[u8]) -> (r: zvt_builder::ZVTResult<(Self, &[u8])>) { unimplemented!() }
     }
@@ -43,6 +48,7 @@
         /// carry" is an obligation instead of a type error
         open spec fn tid() -> int { 5 }
         uninterp spec fn zd_ok(b: Seq<u8>, v: Self) -> bool;
+        uninterp spec fn zd_defined(b: Seq<u8>) -> bool;
         #[verifier::external_body]
         fn zvt_deserialize(bytes: &[u8]) -> (r: zvt_builder::ZVTResult<(Self, &[u8])>) { unimplemented!() }
     }
@@ -51,6 +57,7 @@
         /// carry" is an obligation instead of a type error
         open spec fn tid() -> int { 6 }
         uninterp spec fn zd_ok(b: Seq<u8>, v: Self) -> bool;
+        uninterp spec fn zd_defined(b: Seq<u8>) -> bool;
         #[verifier::external_body]
         fn zvt_deserialize(bytes: &[u8]) -> (r: zvt_builder::ZVTResult<(Self, &[u8])>) { unimplemented!() }
     }
@@ -59,6 +66,7 @@
         /// carry" is an obligation instead of a type error
         open spec fn tid() -> int { 7 }
         uninterp spec fn zd_ok(b: Seq<u8>, v: Self) -> bool;
+        uninterp spec fn zd_defined(b: Seq<u8>) -> bool;
         #[verifier::external_body]
         fn zvt_deserialize(bytes: &[u8]) -> (r: zvt_builder::ZVTResult<(Self, &[u8])>) { unimplemented!() }
     }
@@ -67,6 +75,7 @@
         /// carry" is an obligation instead of a type error
         open spec fn tid() -> int { 8 }
         uninterp spec fn zd_ok(b: Seq<u8>, v: Self) -> bool;
+        uninterp spec fn zd_defined(b: Seq<u8>) -> bool;
         #[verifier::external_body]
         fn zvt_deserialize(bytes: &[u8]) -> (r: zvt_builder::ZVTResult<(Self, &[u8])>) { unimplemented!() }
     }
@@ -75,6 +84,7 @@
         /// carry" is an obligation instead of a type error
         open spec fn tid() -> int { 9 }
         uninterp spec fn zd_ok(b: Seq<u8>, v: Self) -> bool;
+        uninterp spec fn zd_defined(b: Seq<u8>) -> bool;
         #[verifier::external_body]
         fn zvt_deserialize(bytes: &[u8]) -> (r: zvt_builder::ZVTResult<(Self, &[u8])>) { unimplemented!() }
     }
@@ -83,6 +93,7 @@
         /// carry" is an obligation instead of a type error
         open spec fn tid() -> int { 10 }
         uninterp spec fn zd_ok(b: Seq<u8>, v: Self) -> bool;
+        uninterp spec fn zd_defined(b: Seq<u8>) -> bool;
         #[verifier::external_body]
         fn zvt_deserialize(bytes: &[u8]) -> (r: zvt_builder::ZVTResult<(Self, &[u8])>) { unimplemented!() }
     }
